@@ -46,7 +46,7 @@ func (prop) Budget(tier string) int {
 	if tier == "thorough" {
 		return 500000
 	}
-	return 14000
+	return 7000
 }
 
 func (prop) Sweep(string) []kernel.Scenario { return nil }
